@@ -38,7 +38,9 @@ var idShapes = map[string][]party.ID{
 	"long32":   {"00000000000000000000000000000001", "party-two-with-a-32-byte-name-xx", "zzzzzzzzzzzzzzzzzzzzzzzzzzzzzzzz", "~~~~~~~~~~~~~~~~~~~~~~~~~~~~~~~~", "\x7f\x7f\x7f\x7f\x7f\x7f\x7f\x7f\x7f\x7f\x7f\x7f\x7f\x7f\x7f\x7f\x7f\x7f\x7f\x7f\x7f\x7f\x7f\x7f\x7f\x7f\x7f\x7f\x7f\x7f\x7f\x7f"},
 	"long40":   {"a-participant-identifier-of-40-bytes-...", "b-participant-identifier-of-40-bytes-...", "c-participant-identifier-of-40-bytes-...", "d-participant-identifier-of-40-bytes-...", "e-participant-identifier-of-40-bytes-..."},
 	"utf8":     {"Ærøskøbing", "Çanakkale", "Đà Nẵng", "Ōsaka", "北京"},
-	"leadzero": {"\x00\x01", "\x00\x02", "\x00a", "\x01", "b"},
+	// leading zero bytes do not change the scalar image: the images must stay distinct (C02 quantifies over such sets
+	// only; "\x00\x01" next to "\x01" is two parties on one evaluation point - the first n = 4 run alarmed on that)
+	"leadzero": {"\x00\x01", "\x00\x02", "\x00a", "\x03", "b"},
 }
 
 type opT struct {
@@ -877,6 +879,18 @@ func main() {
 	}
 	ids := append([]party.ID(nil), idShapes[*shape][:*n]...)
 	sort.Slice(ids, func(i, j int) bool { return ids[i] < ids[j] })
+	// the properties quantify over identifier sets whose scalar images are distinct and non-zero
+	seenImg := map[string]party.ID{}
+	for _, id := range ids {
+		img := oracle.IDScalar(string(id))
+		if img.Sign() == 0 {
+			fatal("identifier %q has the scalar image zero", id)
+		}
+		if o, dup := seenImg[img.String()]; dup {
+			fatal("identifiers %q and %q have the same scalar image", o, id)
+		}
+		seenImg[img.String()] = id
+	}
 	w := &world{scheme: *scheme, ids: ids, t: *t, seed: *seed + "/" + *scheme + "/" + *shape, cache: map[string][]*version{}, stats: map[string]int{}}
 	f, err := os.Open(*histFile)
 	if err != nil {
